@@ -32,7 +32,11 @@
    sequential ordering, because set publishes the sub-tree node by node.
 
    Bug constants (vacuity guards): DropLockBug = find_child runs without the lock_guard;
-   CachedLevelBug = an object returns the level its node had when the object was created. *)
+   CachedLevelBug = an object returns the level its node had when the object was created;
+   StaleParentReadBug = find_child loads the parent's level before taking the lock (no data race,
+   mutual exclusion intact: only NewChildLevelOK / RefinesWhenFree / LPWWhenFree fail).
+   NewChildLevelOK: every node created (by any find-or-create) gets the level LatestPrefixWins
+   assigns to its path at the linearisation point of the creating critical section. *)
 EXTENDS Naturals, Integers, Sequences, FiniteSets, TLC
 
 CONSTANTS Names, MaxDepth, SetLevels, RootLevels, Objs, MaxSets, MaxOps, GenObservers,   \* of LogContext (unused here)
@@ -45,7 +49,8 @@ CONSTANTS Threads,        \* set of thread ids (positive integers)
           InitOrder,      \* initial tree: sequence of paths in creation order, root first
           InitObjs,       \* [Threads -> sequence of paths of pre-bound objects]
           CRoot,          \* root level
-          DropLockBug, CachedLevelBug
+          DropLockBug, CachedLevelBug,
+          StaleParentReadBug   \* find_child reads the parent's level (atomic load) BEFORE taking the lock
 
 (* named values for the cfg files *)
 nA == <<97>>
@@ -81,9 +86,11 @@ VARIABLES lvl,      \* [existing paths -> level]   (each node's std::atomic)
           objs,     \* [Threads -> sequence of [path, cached]]
           alvl, csets, aret,   \* ghosts: abstract state, order of linearised sets, abstract return
           seen,     \* ghost: values the node of a pending lock-free read has held since its call
-          reads     \* ghost: completed lock-free reads per thread, in program order
+          reads,    \* ghost: completed lock-free reads per thread, in program order
+          bornOK    \* ghost: every node created so far got the level LatestPrefixWins assigns to its path
+                    \*        at the linearisation point of the critical section that created it
 
-cvars == <<lvl, order, mutex, pc, op, cur, tmp, ret, left, objs, alvl, csets, aret, seen, reads>>
+cvars == <<lvl, order, mutex, pc, op, cur, tmp, ret, left, objs, alvl, csets, aret, seen, reads, bornOK>>
 
 (* the sequential specification, instantiated on the concrete tree and the ghost order of sets *)
 LC == INSTANCE LogContext WITH st <- [lvl |-> lvl, root |-> CRoot, obj |-> <<>>, lf |-> <<>>],
@@ -123,6 +130,7 @@ CInit ==
   /\ aret = [t \in Threads |-> NoRet]
   /\ seen = [t \in Threads |-> {}]
   /\ reads = [t \in Threads |-> <<>>]
+  /\ bornOK = TRUE
 
 -----------------------------------------------------------------------------
 (* call: pick the next operation *)
@@ -150,7 +158,7 @@ Call(t) ==
           /\ pc' = [pc EXCEPT ![t] = "r_read"]
           \* the call instant: from now on every value the node holds is a legitimate answer
           /\ seen' = [seen EXCEPT ![t] = {lvl[objs[t][k].path]}]
-  /\ UNCHANGED <<lvl, order, mutex, cur, tmp, ret, objs, alvl, csets, aret, reads>>
+  /\ UNCHANGED <<lvl, order, mutex, cur, tmp, ret, objs, alvl, csets, aret, reads, bornOK>>
 
 (* a write of node p is seen by every pending lock-free read of p *)
 SeenAfterWrite(p, v) ==
@@ -166,7 +174,7 @@ SAcquire(t) ==
   \* linearisation point
   /\ alvl' = SetOp(alvl, op[t].loc, op[t].l)
   /\ csets' = Append(csets, [loc |-> op[t].loc, l |-> op[t].l])
-  /\ UNCHANGED <<lvl, order, op, tmp, ret, left, objs, aret, seen, reads>>
+  /\ UNCHANGED <<lvl, order, op, tmp, ret, left, objs, aret, seen, reads, bornOK>>
 
 (* one find_or_create_child per step, shared by set and the first critical section of create *)
 FindStep(t, here, next) ==
@@ -180,6 +188,7 @@ FindStep(t, here, next) ==
                   /\ order' = Append(order, child)
           /\ cur' = [cur EXCEPT ![t] = child]
           /\ UNCHANGED pc
+  /\ bornOK' = (bornOK /\ \A p \in DOMAIN lvl' \ DOMAIN lvl : lvl'[p] = LC!Latest(csets, CRoot, p))
   /\ UNCHANGED <<mutex, op, tmp, ret, left, objs, alvl, csets, aret, seen, reads>>
 
 SWalk(t) ==
@@ -191,13 +200,13 @@ SWalk(t) ==
      IN IF i < Len(po)
         THEN cur' = [cur EXCEPT ![t] = po[i + 1]] /\ UNCHANGED pc
         ELSE pc' = [pc EXCEPT ![t] = "s_rel"] /\ UNCHANGED cur
-  /\ UNCHANGED <<order, mutex, op, tmp, ret, left, objs, alvl, csets, aret, reads>>
+  /\ UNCHANGED <<order, mutex, op, tmp, ret, left, objs, alvl, csets, aret, reads, bornOK>>
 
 Release(t, here, next) ==
   /\ pc[t] = here
   /\ mutex' = IF mutex = t THEN 0 ELSE mutex
   /\ pc' = [pc EXCEPT ![t] = next]
-  /\ UNCHANGED <<lvl, order, op, cur, tmp, ret, left, objs, alvl, csets, aret, seen, reads>>
+  /\ UNCHANGED <<lvl, order, op, cur, tmp, ret, left, objs, alvl, csets, aret, seen, reads, bornOK>>
 
 -----------------------------------------------------------------------------
 (* context::get *)
@@ -206,13 +215,13 @@ GAcquire(t) ==
   /\ mutex' = t
   /\ pc' = [pc EXCEPT ![t] = "g_walk"]
   /\ aret' = [aret EXCEPT ![t] = GetOp(alvl, op[t].loc)]      \* linearisation point
-  /\ UNCHANGED <<lvl, order, op, cur, tmp, ret, left, objs, alvl, csets, seen, reads>>
+  /\ UNCHANGED <<lvl, order, op, cur, tmp, ret, left, objs, alvl, csets, seen, reads, bornOK>>
 
 GWalk(t) ==
   /\ pc[t] = "g_walk"
   /\ ret' = [ret EXCEPT ![t] = lvl[DeepestPrefix(lvl, op[t].loc)]]
   /\ pc' = [pc EXCEPT ![t] = "g_rel"]
-  /\ UNCHANGED <<lvl, order, mutex, op, cur, tmp, left, objs, alvl, csets, aret, seen, reads>>
+  /\ UNCHANGED <<lvl, order, mutex, op, cur, tmp, left, objs, alvl, csets, aret, seen, reads, bornOK>>
 
 -----------------------------------------------------------------------------
 (* object::object(context, location, parameters) *)
@@ -222,21 +231,30 @@ CAcquire1(t) ==
   /\ cur' = [cur EXCEPT ![t] = <<>>]
   /\ pc' = [pc EXCEPT ![t] = "c_find"]
   /\ alvl' = Ensure(alvl, op[t].loc)                            \* linearisation point
-  /\ UNCHANGED <<lvl, order, op, tmp, ret, left, objs, csets, aret, seen, reads>>
+  /\ UNCHANGED <<lvl, order, op, tmp, ret, left, objs, csets, aret, seen, reads, bornOK>>
+
+(* end of find_location; with StaleParentReadBug the (atomic, race-free) load of the parent's level
+   that find_or_create_child performs happens here, before the second lock is taken *)
+CRelease1(t) ==
+  /\ pc[t] = "c_rel1"
+  /\ mutex' = IF mutex = t THEN 0 ELSE mutex
+  /\ pc' = [pc EXCEPT ![t] = "c_acq2"]
+  /\ tmp' = IF StaleParentReadBug THEN [tmp EXCEPT ![t] = lvl[op[t].loc]] ELSE tmp
+  /\ UNCHANGED <<lvl, order, op, cur, ret, left, objs, alvl, csets, aret, seen, reads, bornOK>>
 
 CAcquire2(t) ==
   /\ pc[t] = "c_acq2"
   /\ IF DropLockBug THEN UNCHANGED mutex ELSE mutex = 0 /\ mutex' = t
   /\ pc' = [pc EXCEPT ![t] = "c_child1"]
   /\ alvl' = Ensure(alvl, Append(op[t].loc, op[t].name))        \* linearisation point
-  /\ UNCHANGED <<lvl, order, op, cur, tmp, ret, left, objs, csets, aret, seen, reads>>
+  /\ UNCHANGED <<lvl, order, op, cur, tmp, ret, left, objs, csets, aret, seen, reads, bornOK>>
 
 (* find_or_create_child, first half: search the children, read the parent's level *)
 CChild1(t) ==
   /\ pc[t] = "c_child1"
-  /\ tmp' = [tmp EXCEPT ![t] = lvl[op[t].loc]]
+  /\ tmp' = IF StaleParentReadBug THEN tmp ELSE [tmp EXCEPT ![t] = lvl[op[t].loc]]
   /\ pc' = [pc EXCEPT ![t] = IF Append(op[t].loc, op[t].name) \in DOMAIN lvl THEN "c_rel2" ELSE "c_child2"]
-  /\ UNCHANGED <<lvl, order, mutex, op, cur, ret, left, objs, alvl, csets, aret, seen, reads>>
+  /\ UNCHANGED <<lvl, order, mutex, op, cur, ret, left, objs, alvl, csets, aret, seen, reads, bornOK>>
 
 (* second half: push_back the new child *)
 CChild2(t) ==
@@ -244,6 +262,7 @@ CChild2(t) ==
   /\ LET child == Append(op[t].loc, op[t].name) IN
      IF child \in DOMAIN lvl THEN UNCHANGED <<lvl, order>>    \* (only with DropLockBug) duplicate child: keep the first
      ELSE lvl' = lvl @@ (child :> tmp[t]) /\ order' = Append(order, child)
+  /\ bornOK' = (bornOK /\ \A p \in DOMAIN lvl' \ DOMAIN lvl : lvl'[p] = LC!Latest(csets, CRoot, p))
   /\ pc' = [pc EXCEPT ![t] = "c_rel2"]
   /\ UNCHANGED <<mutex, op, cur, tmp, ret, left, objs, alvl, csets, aret, seen, reads>>
 
@@ -253,7 +272,7 @@ CRelease2(t) ==
   /\ LET child == Append(op[t].loc, op[t].name) IN
      objs' = [objs EXCEPT ![t] = Append(@, [path |-> child, cached |-> lvl[child]])]
   /\ pc' = [pc EXCEPT ![t] = "ret"]
-  /\ UNCHANGED <<lvl, order, op, cur, tmp, ret, left, alvl, csets, aret, seen, reads>>
+  /\ UNCHANGED <<lvl, order, op, cur, tmp, ret, left, alvl, csets, aret, seen, reads, bornOK>>
 
 -----------------------------------------------------------------------------
 (* object::level(): one atomic load, no mutex *)
@@ -262,7 +281,7 @@ RRead(t) ==
   /\ LET o == objs[t][op[t].k] IN
      ret' = [ret EXCEPT ![t] = IF CachedLevelBug THEN o.cached ELSE lvl[o.path]]
   /\ pc' = [pc EXCEPT ![t] = "ret"]
-  /\ UNCHANGED <<lvl, order, mutex, op, cur, tmp, left, objs, alvl, csets, aret, seen, reads>>
+  /\ UNCHANGED <<lvl, order, mutex, op, cur, tmp, left, objs, alvl, csets, aret, seen, reads, bornOK>>
 
 Return(t) ==
   /\ pc[t] = "ret"
@@ -274,14 +293,14 @@ Return(t) ==
   /\ ret' = [ret EXCEPT ![t] = NoRet]
   /\ aret' = [aret EXCEPT ![t] = NoRet]
   /\ seen' = [seen EXCEPT ![t] = {}]
-  /\ UNCHANGED <<lvl, order, mutex, cur, tmp, left, objs, alvl, csets>>
+  /\ UNCHANGED <<lvl, order, mutex, cur, tmp, left, objs, alvl, csets, bornOK>>
 
 CNext ==
   \E t \in Threads :
     \/ Call(t)
     \/ SAcquire(t) \/ FindStep(t, "s_find", "s_walk") \/ SWalk(t) \/ Release(t, "s_rel", "ret")
     \/ GAcquire(t) \/ GWalk(t) \/ Release(t, "g_rel", "ret")
-    \/ CAcquire1(t) \/ FindStep(t, "c_find", "c_rel1") \/ Release(t, "c_rel1", "c_acq2")
+    \/ CAcquire1(t) \/ FindStep(t, "c_find", "c_rel1") \/ CRelease1(t)
     \/ CAcquire2(t) \/ CChild1(t) \/ CChild2(t) \/ CRelease2(t)
     \/ RRead(t)
     \/ Return(t)
@@ -302,6 +321,12 @@ MutualExclusion ==
 RefinesWhenFree == mutex = 0 => lvl = alvl
 
 LPWWhenFree == mutex = 0 => LC!LatestPrefixWins
+
+(* object creation racing with set: a newly created node (by set's / create's find_location or by
+   find_child) carries exactly the level that LatestPrefixWins assigns to its path at the
+   linearisation point of the creating critical section (the lock is held from there to the
+   push_back, so csets is the same at both) *)
+NewChildLevelOK == bornOK
 
 LockedReturnsAtomic ==
   \A t \in Threads : pc[t] = "ret" /\ op[t].op = "get" => ret[t] = aret[t]
